@@ -106,6 +106,15 @@ def fingerprint(roots, lib_prefixes=('recognizers_', 'datatypes_timex')):
             if d:
                 for k, v in d.items():
                     stack.append((path + '.' + k, v))
+            # class-level data attributes of library classes are shared by every instance (and every thread)
+            for cls in t.__mro__:
+                if not (getattr(cls, '__module__', '') or '').startswith(lib_prefixes) or id(cls) in seen:
+                    continue
+                seen.add(id(cls))
+                for k, v in vars(cls).items():
+                    if k.startswith('__') or callable(v) or isinstance(v, (property, staticmethod, classmethod)):
+                        continue
+                    stack.append(('<class %s>.%s' % (cls.__qualname__, k), v))
         elif callable(o):
             out[path] = 'callable:' + getattr(o, '__qualname__', t.__name__)
         else:
